@@ -1978,3 +1978,279 @@ Section Elim.
       eapply es_path_closed; [apply es_init|exact Hp].
   Qed.
 End Elim.
+
+(* ------------------------------------------------------------------ *)
+(* quotients: shared facts about the joint moves of two eliminated automata *)
+Lemma elim_no_eps_any A q y : ~ EE A q None y.
+Proof.
+  intro H. apply elim_edge_row in H. unfold elim_row in H. apply tab_tg in H. destruct H as [_ []].
+Qed.
+
+Lemma joint_targets_In (ra rb : xrow nat) syms p :
+  In p (joint_targets ra rb syms) <->
+  exists s, In s syms /\ In (fst p) (xtg ra (Some s)) /\ In (snd p) (xtg rb (Some s)).
+Proof.
+  unfold joint_targets, joint_keys. rewrite in_flat_map. destruct p as [p1 p2]. simpl. split.
+  - intros [s [Hs Hp]]. apply filter_In in Hs. apply in_prod_iff in Hp. exists s. tauto.
+  - intros [s [Hs [H1 H2]]]. exists s. split; [|apply in_prod_iff; auto].
+    apply filter_In. split; [exact Hs|]. apply andb_true_iff. split; apply has_key_In; eapply xtg_key; eassumption.
+Qed.
+
+Lemma joint_keys_nonempty (ra rb : xrow nat) syms p :
+  In p (joint_targets ra rb syms) -> joint_keys ra rb syms <> [].
+Proof.
+  unfold joint_targets. intro H. apply in_flat_map in H. destruct H as [s [Hs _]]. intro E. rewrite E in Hs. destruct Hs.
+Qed.
+
+Section Quot.
+  Variables A B : nfa.
+  Hypothesis HvA : valid_nfa A = true.
+  Hypothesis HvB : valid_nfa B = true.
+  Variables ea eb : eparts.
+  Hypothesis Hea : elim_parts A = Ok ea.
+  Hypothesis Heb : elim_parts B = Ok eb.
+
+  Let syms := usyms A B.
+  Let iA := n_init A.
+  Let iB := n_init B.
+  Let EA := EE A.
+  Let EB := EE B.
+
+  (* one joint move *)
+  Definition jstep (qa qb ta tb : nat) : Prop := exists s, EA qa (Some s) ta /\ EB qb (Some s) tb.
+
+  Lemma joint_In qa qb ta tb : In qa (n_states A) ->
+    (In (ta, tb) (joint_targets (erow ea qa) (erow eb qb) syms) <-> jstep qa qb ta tb).
+  Proof.
+    intro Hqa. rewrite joint_targets_In. simpl. unfold jstep. split.
+    - intros [s [_ [H1 H2]]]. exists s. split; [apply (erow_tg A ea Hea); exact H1|apply (erow_tg B eb Heb); exact H2].
+    - intros [s [H1 H2]]. exists s. split; [|split; [apply (erow_tg A ea Hea); exact H1|apply (erow_tg B eb Heb); exact H2]].
+      apply (elim_sym_ok A HvA) in H1; [|exact Hqa]. unfold syms, usyms. apply set_of_In. apply in_or_app. left. exact H1.
+  Qed.
+
+  Lemma jstep_in qa qb ta tb : In qa (n_states A) -> In qb (n_states B) -> jstep qa qb ta tb ->
+    In ta (n_states A) /\ In tb (n_states B).
+  Proof.
+    intros Ha Hb [s [H1 H2]]. split; [eapply (elim_step_in A HvA); eassumption|eapply (elim_step_in B HvB); eassumption].
+  Qed.
+
+  (* sequences of joint moves = reading one common word on both sides *)
+  Inductive jpath : nat * nat -> nat * nat -> Prop :=
+  | jp_refl x : jpath x x
+  | jp_step qa qb ta tb y : jstep qa qb ta tb -> jpath (ta, tb) y -> jpath (qa, qb) y.
+
+  Lemma jpath_word x y : jpath x y ->
+    exists v, gpath EA (fst x) v (fst y) /\ gpath EB (snd x) v (snd y).
+  Proof.
+    intro H. induction H as [x|qa qb ta tb y [s [H1 H2]] Hp [v [IH1 IH2]]].
+    - exists []. split; apply gp_refl.
+    - exists (s :: v). simpl in *. split; eapply gp_sym; eassumption.
+  Qed.
+
+  Lemma word_jpath qa v ta : gpath EA qa v ta -> forall qb tb, gpath EB qb v tb -> jpath (qa, qb) (ta, tb).
+  Proof.
+    intro H. induction H as [qa|qa q1 ta v He Hp IH|qa s q1 ta v He Hp IH]; intros qb tb HB.
+    - apply (gpath_noeps_nil EB (elim_no_eps_any B)) in HB. subst. apply jp_refl.
+    - exfalso. eapply elim_no_eps_any. exact He.
+    - apply (gpath_noeps_cons EB (elim_no_eps_any B)) in HB. destruct HB as [q2 [H2 H3]].
+      eapply jp_step; [exists s; split; eassumption|]. apply IH. exact H3.
+  Qed.
+
+  Lemma jpath_in x y : jpath x y -> In (fst x) (n_states A) -> In (snd x) (n_states B) ->
+    In (fst y) (n_states A) /\ In (snd y) (n_states B).
+  Proof.
+    intro H. induction H as [x|qa qb ta tb y Hs Hp IH]; intros Ha Hb; [auto|].
+    simpl in *. destruct (jstep_in _ _ _ _ Ha Hb Hs) as [Ha' Hb']. apply IH; assumption.
+  Qed.
+
+  Lemma iA_in : In iA (n_states A).
+  Proof. destruct (ops_valid_parts A HvA) as (_ & _ & _ & _ & Hi & _). exact Hi. Qed.
+  Lemma iB_in : In iB (n_states B).
+  Proof. destruct (ops_valid_parts B HvB) as (_ & _ & _ & _ & Hi & _). exact Hi. Qed.
+
+  (* ---------------- right quotient ---------------- *)
+  Let rowR := rq_rowof ea eb syms iB.
+  Let ER := xedge rowR.
+
+  Lemma rq_edge_F q qb a y :
+    ER (q, qb, false) a y <->
+    (a = None /\ y = (q, iB, true)) \/ (exists s t, a = Some s /\ EA q (Some s) t /\ y = (t, iB, false)).
+  Proof.
+    unfold ER, xedge, rowR, rq_rowof. simpl. split.
+    - intros [r [Er Hy]]. injection Er as <-. apply tab_tg in Hy. destruct Hy as [_ Hy].
+      destruct a as [s|].
+      + right. apply in_map_iff in Hy. destruct Hy as [t [<- Ht]]. exists s, t.
+        split; [reflexivity|]. split; [apply (erow_tg A ea Hea); exact Ht|reflexivity].
+      + left. destruct Hy as [<-|[]]. auto.
+    - intros [[-> ->]|[s [t [-> [Ht ->]]]]]; (eexists; split; [reflexivity|]); apply tab_tg.
+      + split; [apply in_or_app; right; left; reflexivity|left; reflexivity].
+      + apply (erow_tg A ea Hea) in Ht. split; [apply in_or_app; left; eapply xtg_key; exact Ht|].
+        apply in_map_iff. exists t. auto.
+  Qed.
+
+  Lemma rq_edge_T qa qb a y : In qa (n_states A) ->
+    (ER (qa, qb, true) a y <-> a = None /\ exists ta tb, jstep qa qb ta tb /\ y = (ta, tb, true)).
+  Proof.
+    intro Hqa. unfold ER, xedge, rowR, rq_rowof. simpl. split.
+    - intros [r [Er Hy]].
+      destruct (joint_keys (erow ea qa) (erow eb qb) syms) as [|k ks] eqn:Ek; [discriminate|].
+      injection Er as <-. unfold xtg in Hy. destruct a as [s|]; simpl in Hy; [destruct Hy|].
+      split; [reflexivity|]. apply in_map_iff in Hy. destruct Hy as [[ta tb] [<- Hp]].
+      exists ta, tb. split; [|reflexivity]. apply joint_In; assumption.
+    - intros [-> [ta [tb [Hs ->]]]]. apply (joint_In qa qb ta tb Hqa) in Hs.
+      pose proof (joint_keys_nonempty _ _ _ _ Hs) as Hne.
+      destruct (joint_keys (erow ea qa) (erow eb qb) syms) as [|k ks] eqn:Ek; [congruence|].
+      eexists. split; [reflexivity|]. unfold xtg. simpl. apply in_map_iff. exists (ta, tb). auto.
+  Qed.
+
+  Lemma rq_T_path x w y : gpath ER x w y -> snd x = true ->
+    In (fst (fst x)) (n_states A) -> In (snd (fst x)) (n_states B) ->
+    w = [] /\ snd y = true /\ jpath (fst x) (fst y).
+  Proof.
+    intro H. induction H as [x|x y1 z w He Hp IH|x a y1 z w He Hp IH]; intros Hx Ha Hb.
+    - split; [reflexivity|]. split; [exact Hx|apply jp_refl].
+    - destruct x as [[qa qb] fl]. simpl in *. subst fl. apply rq_edge_T in He; [|exact Ha].
+      destruct He as [_ [ta [tb [Hs ->]]]]. destruct (jstep_in _ _ _ _ Ha Hb Hs) as [Ha' Hb'].
+      destruct (IH eq_refl Ha' Hb') as [-> [Hz Hj]]. split; [reflexivity|]. split; [exact Hz|].
+      eapply jp_step; eassumption.
+    - destruct x as [[qa qb] fl]. simpl in *. subst fl. apply rq_edge_T in He; [|exact Ha].
+      destruct He as [E _]. discriminate.
+  Qed.
+
+  Lemma rq_T_complete x y : jpath x y -> In (fst x) (n_states A) -> In (snd x) (n_states B) ->
+    gpath ER (x, true) [] (y, true).
+  Proof.
+    intro H. induction H as [x|qa qb ta tb y Hs Hp IH]; intros Ha Hb; [apply gp_refl|]. simpl in *.
+    destruct (jstep_in _ _ _ _ Ha Hb Hs) as [Ha' Hb'].
+    eapply gp_eps; [|apply IH; assumption]. apply rq_edge_T; [exact Ha|]. split; [reflexivity|]. exists ta, tb. auto.
+  Qed.
+
+  Lemma rq_F_path x w y : gpath ER x w y -> snd x = false -> snd y = true ->
+    In (fst (fst x)) (n_states A) ->
+    exists q', gpath EA (fst (fst x)) w q' /\ In q' (n_states A) /\ jpath (q', iB) (fst y).
+  Proof.
+    intro H. induction H as [x|x y1 z w He Hp IH|x a y1 z w He Hp IH]; intros Hx Hy Ha.
+    - congruence.
+    - destruct x as [[q qb] fl]. simpl in *. subst fl. apply rq_edge_F in He.
+      destruct He as [[_ ->]|[s [t [E _]]]]; [|discriminate].
+      destruct (rq_T_path _ _ _ Hp eq_refl Ha iB_in) as [-> [_ Hj]].
+      exists q. split; [apply gp_refl|]. split; [exact Ha|exact Hj].
+    - destruct x as [[q qb] fl]. simpl in *. subst fl. apply rq_edge_F in He.
+      destruct He as [[E _]|[s [t [E [Ht ->]]]]]; [discriminate|]. inversion E; subst s.
+      destruct (IH eq_refl Hy (elim_step_in A HvA _ _ _ Ha Ht)) as [q' [H1 [H2 H3]]].
+      exists q'. split; [eapply gp_sym; eassumption|]. auto.
+  Qed.
+
+  Lemma rq_F_complete q w q' : gpath EA q w q' -> gpath ER (q, iB, false) w (q', iB, false).
+  Proof.
+    intro H. induction H as [q|q q1 q' w He Hp IH|q s q1 q' w He Hp IH].
+    - apply gp_refl.
+    - exfalso. eapply elim_no_eps_any. exact He.
+    - eapply gp_sym; [|exact IH]. apply rq_edge_F. right. exists s, q1. auto.
+  Qed.
+
+  Let finQ := map (fun p : nat * nat => (p, true)) (list_prod (e_finals ea) (e_finals eb)).
+
+  Lemma finQ_In y : In y finQ <-> snd y = true /\ In (fst (fst y)) (e_finals ea) /\ In (snd (fst y)) (e_finals eb).
+  Proof.
+    unfold finQ. rewrite in_map_iff. split.
+    - intros [[p1 p2] [<- Hp]]. apply in_prod_iff in Hp. simpl. tauto.
+    - intros [H1 [H2 H3]]. destruct y as [[y1 y2] fl]. simpl in *. subst fl. exists (y1, y2). split; [reflexivity|].
+      apply in_prod_iff. auto.
+  Qed.
+
+  Lemma rq_graph_lang w :
+    (exists y, gpath ER (iA, iB, false) w y /\ In y finQ) <-> l_rquot (L_nfa A) (L_nfa B) w.
+  Proof.
+    unfold l_rquot. split.
+    - intros [y [Hp Hy]]. apply finQ_In in Hy. destruct Hy as [Hy [Fa Fb]].
+      destruct (rq_F_path _ _ _ Hp eq_refl Hy iA_in) as [q' [H1 [H2 H3]]]. simpl in H1.
+      apply jpath_word in H3. destruct H3 as [v [H3 H4]]. simpl in H3, H4. exists v. split.
+      + apply (elim_lang B HvB eb Heb). exists (snd (fst y)). auto.
+      + apply (elim_lang A HvA ea Hea). exists (fst (fst y)). split; [|exact Fa]. eapply gpath_app; eassumption.
+    - intros [v [HB HA]]. apply (elim_lang B HvB eb Heb) in HB. apply (elim_lang A HvA ea Hea) in HA.
+      destruct HB as [fb [Hb Fb]]. destruct HA as [fa [Ha Fa]].
+      apply gpath_app_inv in Ha. destruct Ha as [q' [H1 H2]].
+      exists (fa, fb, true). split; [|apply finQ_In; simpl; auto].
+      rewrite <- (app_nil_r w). eapply gpath_app; [apply rq_F_complete; exact H1|].
+      eapply gp_eps; [apply rq_edge_F; left; split; reflexivity|].
+      apply (rq_T_complete (q', iB) (fa, fb)); simpl.
+      + eapply word_jpath; eassumption.
+      + destruct (elim_path_sound A HvA _ _ _ H1 iA_in) as [_ H]. exact H.
+      + exact iB_in.
+  Qed.
+
+  Let xsR := rq_xs ea eb iB.
+
+  Lemma rq_xs_In x : In x xsR <->
+    (snd x = false /\ snd (fst x) = iB /\ In (fst (fst x)) (e_states ea)) \/
+    (snd x = true /\ In (fst (fst x)) (e_states ea) /\ In (snd (fst x)) (e_states eb)).
+  Proof.
+    unfold xsR, rq_xs. rewrite in_app_iff, !in_map_iff. split.
+    - intros [[q [<- Hq]]|[[p1 p2] [<- Hp]]]; simpl; [left; auto|right]. apply in_prod_iff in Hp. tauto.
+    - destruct x as [[x1 x2] fl]. simpl. intros [[-> [-> H]]|[-> [H1 H2]]].
+      + left. exists x1. auto.
+      + right. exists (x1, x2). split; [reflexivity|apply in_prod_iff; auto].
+  Qed.
+
+  Lemma rq_xs_NoDup : NoDup xsR.
+  Proof.
+    unfold xsR, rq_xs. apply NoDup_app_intro.
+    - apply NoDup_map_on; [apply (es_NoDup A ea Hea)|]. intros x y _ _ E. inversion E. reflexivity.
+    - apply NoDup_map_on; [apply NoDup_list_prod; [apply (es_NoDup A ea Hea)|apply (es_NoDup B eb Heb)]|].
+      intros x y _ _ E. inversion E. reflexivity.
+    - intros x H1 H2. apply in_map_iff in H1. apply in_map_iff in H2.
+      destruct H1 as [q [<- _]]. destruct H2 as [p [E _]]. discriminate.
+  Qed.
+
+  Lemma rq_rows_ok : rows_ok xsR syms rowR.
+  Proof.
+    intros [[q qb] fl] r Hx Er a l Hal. apply rq_xs_In in Hx. simpl in Hx.
+    destruct Hx as [[-> [-> Hq]]|[-> [Hqa Hqb]]].
+    - pose proof (es_in_states A HvA ea Hea _ Hq) as HqA.
+      unfold rowR, rq_rowof in Er. simpl in Er. injection Er as <-.
+      pose proof (tab_entry _ _ _ _ Hal) as [Hk ->]. split.
+      + apply in_app_or in Hk. destruct Hk as [Hk|[<-|[]]]; [|reflexivity].
+        destruct (erow_key_sym A HvA ea Hea q a HqA Hk) as [s [-> Hs]]. apply usyms_l. simpl. apply memb_In. exact Hs.
+      + intros y Hy. apply rq_xs_In. destruct a as [s|].
+        * apply in_map_iff in Hy. destruct Hy as [t [<- Ht]]. left. simpl. split; [reflexivity|]. split; [reflexivity|].
+          apply (erow_tg A ea Hea) in Ht. eapply (es_closed A ea Hea); eassumption.
+        * destruct Hy as [<-|[]]. right. simpl. split; [reflexivity|]. split; [exact Hq|apply (es_init B eb Heb)].
+    - pose proof (es_in_states A HvA ea Hea _ Hqa) as HqA.
+      unfold rowR, rq_rowof in Er. simpl in Er.
+      destruct (joint_keys (erow ea q) (erow eb qb) syms) as [|k ks] eqn:Ek; [discriminate|].
+      injection Er as <-. destruct Hal as [Hal|[]]. injection Hal as <- <-. split; [reflexivity|].
+      intros y Hy. apply in_map_iff in Hy. destruct Hy as [[ta tb] [<- Hp]].
+      apply (joint_In q qb ta tb HqA) in Hp. destruct Hp as [s [H1 H2]].
+      apply rq_xs_In. right. simpl. split; [reflexivity|].
+      split; [eapply (es_closed A ea Hea); eassumption|eapply (es_closed B eb Heb); eassumption].
+  Qed.
+
+  Lemma rq_x0 : In (iA, iB, false) xsR.
+  Proof. apply rq_xs_In. left. simpl. split; [reflexivity|]. split; [reflexivity|apply (es_init A ea Hea)]. Qed.
+
+  Lemma rq_fin_incl : incl finQ xsR.
+  Proof.
+    intros y Hy. apply finQ_In in Hy. destruct Hy as [H1 [H2 H3]]. apply rq_xs_In. right.
+    apply (es_finals A HvA ea Hea) in H2. apply (es_finals B HvB eb Heb) in H3. tauto.
+  Qed.
+
+  Lemma rq_pre_valid : valid_nfa (rq_pre A B ea eb) = true.
+  Proof.
+    unfold rq_pre. apply asm_valid.
+    - intros x y. apply tidx_inj.
+    - apply rq_rows_ok.
+    - apply rq_x0.
+    - apply rq_fin_incl.
+    - apply rq_xs_NoDup.
+    - apply usyms_NoDup.
+    - left. unfold rq_rowof. simpl. discriminate.
+  Qed.
+
+  Lemma rq_pre_lang : L_nfa (rq_pre A B ea eb) =L l_rquot (L_nfa A) (L_nfa B).
+  Proof.
+    intro w. unfold rq_pre. rewrite asm_lang.
+    2: intros x y; apply tidx_inj. 2: apply rq_rows_ok. 2: apply rq_x0. 2: apply rq_fin_incl.
+    apply rq_graph_lang.
+  Qed.
+End Quot.
